@@ -9,12 +9,17 @@ from vlib.shard import Stage, case_hash
 ID = "C06"
 LEVEL = "exploration"
 TECHNIQUE = "property-based testing (Hypothesis): differential runs of the real CLI in fresh interpreters that differ " \
-            "in --threads, PYTHONHASHSEED, --high_memory, --keep_tmp or nothing; byte-level comparison of all outputs"
+            "in --threads, PYTHONHASHSEED, --high_memory, --keep_tmp or nothing; plus a harness-owned process pool " \
+            "(generated assignment of per-chromosome tasks to persistent worker processes) compared with the " \
+            "single-process run; byte-level comparison of all outputs"
 RULE = ("Hypothesis-generated scenarios with 2-6 chromosomes, read groups (tag), multi-mappers on paralogous loci, "
         "overlapping genes sharing exons, novel isoforms; a configuration pair (A, B) differing in any of --threads "
         "{1,2,3,5,16}, PYTHONHASHSEED (drawn 32-bit values), --high_memory, --keep_tmp, or plain repetition; both "
         "runs are separate `python isoquant.py` processes. Non-trivial = pair differs in >= 1 dimension and the "
-        "outputs contain >= 1 novel transcript and >= 2 groups; distinct by scenario hash.")
+        "outputs contain >= 1 novel transcript and >= 2 groups; distinct by scenario hash. Stage workers: the same "
+        "scenarios, 2-3 generated task->worker assignments per pool (all on one worker, all distinct, pairs, random; "
+        "2-16 workers) executed by vlib/schedpool.py in place of ProcessPoolExecutor, each compared with --threads 1; "
+        "non-trivial = two assignments differ in which chromosomes share a worker and >= 1 novel transcript.")
 ASSUMPTIONS = ["only the '# Command line' / '# IsoQuant version' header lines are run-specific",
                "gzipped outputs are compared after decompression (gzip headers carry a time stamp)"]
 
@@ -141,6 +146,86 @@ def evaluate(case, ctx):
         ra.cleanup()
 
 
+@st.composite
+def worker_scenarios(draw):
+    """The same scenarios, with generated assignments of the per-chromosome tasks to worker processes."""
+    sc = draw(scenarios())
+    for k in ("A", "B", "dims"):
+        sc.pop(k, None)
+    src = S.DrawSrc(draw)
+    n = len(sc["chroms"])
+    plans = []
+    for _ in range(src.int(2, 3)):
+        t = src.choice([2, 3, 5, 16])
+        kind = src.choice(["one", "distinct", "random", "random", "pairs"])
+        pools = []
+        for _p in range(2):
+            if kind == "one":
+                pools.append([0] * n)
+            elif kind == "distinct":
+                pools.append(src.shuffle(list(range(n))))
+            elif kind == "pairs":
+                pools.append([i // 2 for i in src.shuffle(list(range(n)))])
+            else:
+                pools.append([src.int(0, t - 1) for _i in range(n)])
+        plans.append({"threads": t, "assign": pools, "high_memory": src.bool(0.25)})
+    sc["plans"] = plans
+    return sc
+
+
+def colocation(plan, n):
+    """set of task pairs that share a worker, per pool"""
+    out = set()
+    for j, pool in enumerate(plan["assign"]):
+        w = [pool[i % len(pool)] % plan["threads"] for i in range(n)]
+        out |= {(j, a, b) for a in range(n) for b in range(a + 1, n) if w[a] == w[b]}
+    return out
+
+
+def evaluate_workers(case, ctx):
+    from vlib import schedpool
+    sc = case
+    ref = pipeline.run_case(sc, ctx, extra=["--threads", "1"])
+    try:
+        if ref.code != 0:
+            ctx.note("reference_failed:" + ref.crash_signature())
+        n = len(sc["chroms"])
+        colos = []
+        for k, plan in enumerate(sc["plans"]):
+            ex = ["--threads", str(plan["threads"])] + (["--high_memory"] if plan.get("high_memory") else [])
+            trace = os.path.join(ref.dir, "trace%d.txt" % k)
+            r = pipeline.run_case(sc, ctx, extra=ex, d=ref.dir, paths=ref.paths, out_name="out%d" % k,
+                                  home=os.path.join(ref.dir, "home%d" % k),
+                                  pre=lambda plan=plan, trace=trace: schedpool.install(plan["assign"], trace))
+            if r.code != 0 or ref.code != 0:
+                if r.code != ref.code:
+                    ctx.violation("C06:one-worker-assignment-fails:" + (r if r.code else ref).crash_signature().split("@")[0],
+                                  {"plan": plan, "exit": [ref.code, r.code], "log": (r if r.code else ref).log_tail(10)},
+                                  case)
+                continue
+            if not os.path.exists(trace) or len(open(trace).readlines()) < 2:
+                ctx.harness_errors.append("scheduled pool was not used twice by the run")
+                continue
+            colos.append(colocation(plan, n))
+            for kind, f, det in compare.diff_dirs(ref.out, "OUT", r.out, "OUT"):
+                ctx.violation("C06:output-depends-on-worker-assignment:%s" % f,
+                              {"kind": kind, "file": f, "detail": det, "plan": plan,
+                               "trace": open(trace).read().splitlines()}, case)
+            ctx.cls("workers=%d" % len(set(w % plan["threads"] for w in plan["assign"][1][:n])))
+        if ref.code == 0 and len(colos) >= 2 and any(a != b for a in colos for b in colos):
+            files = compare.file_map(ref.out, "OUT")
+            novel = 0
+            if "transcript_models.gtf" in files:
+                novel = sum(1 for l in parse.data_lines(files["transcript_models.gtf"])
+                            if "\ttranscript\t" in l and ('nic";' in l))
+            if novel:
+                ctx.mark_nontrivial(case_hash(case))
+                ctx.sample(pipeline.summarize(sc, {"plans": sc["plans"], "novel": novel}), limit=2)
+    finally:
+        ref.cleanup()
+
+
 def stages(tier):
     q = tier == "quick"
-    return [Stage("pairs", "hyp", evaluate, n=64 if q else 1200, strategy=scenarios)]
+    return [Stage("pairs", "hyp", evaluate, n=64 if q else 1200, strategy=scenarios),
+            Stage("workers", "hyp", evaluate_workers, n=96 if q else 1500, strategy=worker_scenarios)]
